@@ -473,6 +473,10 @@ def run(ctx: Ctx) -> None:
     for d in sorted(buckets.values(), key=lambda x: (len(x["element"]), x["kind"]))[:12]:
         ctx.violation(d, {"spec": json.loads(d["element"]), "pair": d["kind"] in pair_kinds})
 
+    # 5. coverage-guided campaign (atheris) with the same oracle inside the fuzz target
+    from vf import engine
+
+    engine.run_atheris(ctx, "c19", runs=ctx.n(4000, 150000), shards=ctx.n(2, 12), max_len=256)
     replay_known(ctx)
 
 
